@@ -27,6 +27,9 @@ From ClapModel Require Import Parse.Cmd Parse.Build Parse.Valid Complete.EngineM
 From ClapModel Require Import Complete.EngineAccept Complete.EngineFuel Complete.EngineComplete Complete.EngineLevel.
 From ClapModel Require ParseProofs.Chain ParseProofs.ActionsTop.
 From ClapModel Require Import Complete.EngineLine Complete.EnginePositional.
+From ClapModel Require ParseProofs.ChainWide.
+From ClapModel Require Import Complete.EngineItems Complete.EngineWide Complete.EngineHidden Complete.EngineOrder.
+From Coq Require Import Permutation Sorted.
 From ClapModel Require Gen.EngineSites.
 From Coq Require Import ZArith.
 Open Scope N_scope.
@@ -51,21 +54,25 @@ Theorem C18_engine_no_fuel : forall tbl f c b args i,
 Proof. exact built_no_fuel. Qed.
 Print Assumptions C18_engine_no_fuel.
 
-(** a successful completion decomposes into build, shadow parse and [complete_arg] *)
+(** a successful completion decomposes into build, shadow parse and [complete_arg_v] (= the engine's [complete_arg] with
+    the flag [valid_arg_found] of the repair of finding C18-args-conflict).  [complete_arg] (without the flag; all the
+    theorems below are stated for it) is the same function with the flag off, and [complete_arg_v tbl w cur pi st vaf]
+    = [complete_arg tbl w (sub_cut cur vaf) pi st]: behind an argument of a command whose arguments conflict with
+    subcommands the candidates are those of the command WITHOUT its subcommands ([sub_cut]) *)
 Theorem C18_model_decomposes : forall tbl c args i l, complete_model tbl c args i = COk l ->
-  exists b w cur pi st esc,
-    build_full (build_fuel c) c = BOk b /\ start_walk b args i = WAt w cur pi st esc /\
-    complete_arg tbl w cur pi st = COk l.
+  exists b w cur pi st esc vaf,
+    build_full (build_fuel c) c = BOk b /\ start_walk b args i = WAt w cur pi st esc vaf /\
+    complete_arg_v tbl w cur pi st vaf = COk l /\ complete_arg tbl w (sub_cut cur vaf) pi st = COk l.
 Proof. exact model_ok_inv. Qed.
 Print Assumptions C18_model_decomposes.
 
 (** Soundness: in state [ValueDone] every option/subcommand candidate (i) extends the word,
     (ii) names an option, alias or subcommand of the level [cur], which is a node of the built tree
     reached by the shadow parse, (iii) is resolved as such by the parser model's lookups. *)
-Theorem C18_sound : forall tbl c b args i w cur pi esc l cd,
+Theorem C18_sound : forall tbl c b args i w cur pi esc vaf l cd,
   build_full (build_fuel c) c = BOk b ->
-  start_walk b args i = WAt w cur pi ValueDone esc ->
-  complete_arg tbl w cur pi ValueDone = COk l -> In cd l ->
+  start_walk b args i = WAt w cur pi ValueDone esc vaf ->
+  complete_arg_v tbl w cur pi ValueDone vaf = COk l -> In cd l ->
   reach b cur /\ cand_sound w cur cd /\ cand_resolves cur cd.
 Proof. exact sound. Qed.
 Print Assumptions C18_sound.
@@ -318,7 +325,7 @@ Theorem C18_long_alias_value_refuted : exists tbl c a alias v,
     In a (c_args c) /\ In alias (vis_aliases (a_aliases a)) /\
     possible_values tbl a = Some (Some [(v, false)]) /\
     complete_arg_value_done tbl (dd ++ alias ++ [EQ]) c 1 = COk [] /\
-    start_walk c [[112]; dd ++ alias; []] 2 = WAt [] c 1 (Opt a 1) false /\
+    start_walk c [[112]; dd ++ alias; []] 2 = WAt [] c 1 (Opt a 1) false true /\
     complete_arg tbl [] c 1 (Opt a 1) = COk [mkCand v None false].
 Proof. exact long_alias_value_refuted. Qed.
 Print Assumptions C18_long_alias_value_refuted.
@@ -341,11 +348,13 @@ Proof. exact (fun pc cur H => conj (lvl_rel_same_level pc cur H) (fun f => lvl_r
 Print Assumptions C18_level_same.
 
 (** ... and a subcommand name or alias (of a subcommand not called [help]) typed where a new argument may
-    start moves BOTH machines to related nodes: the shadow parse descends ([shadow_step]), the parser's
-    token loop stops with the dispatch and [build_subcommand] builds the child *)
-Theorem C18_level_step_sub : forall pc cur tok sc0 pi, lvl_rel pc cur -> assert_app pc = true ->
+    start moves BOTH machines to related nodes: the shadow parse descends ([shadow_step]; [evaf] is the engine's
+    [valid_arg_found]: on a level with [args_conflicts_with_subcommands] no argument of the level may precede),
+    the parser's token loop stops with the dispatch and [build_subcommand] builds the child *)
+Theorem C18_level_step_sub : forall pc cur tok sc0 pi evaf, lvl_rel pc cur -> assert_app pc = true ->
   utf8_valid tok = true -> find_subcommand pc tok = Some sc0 -> c_name sc0 <> s_help ->
-  exists es pc', shadow_step tok cur pi false ValueDone = SNext es 1 false ValueDone /\
+  (is_set s_args_negate_subs pc && evaf) = false ->
+  exists es pc', shadow_step tok cur pi false ValueDone evaf = SNext es 1 false ValueDone false /\
     build_subcommand pc (c_name sc0) = Some pc' /\ lvl_rel pc' es /\
     forall rest pos vaf st, (is_set s_args_negate_subs pc && vaf) = false ->
       exists n', aliases_to sc0 n' = true /\ find_subcommand pc n' = Some sc0 /\
@@ -383,7 +392,7 @@ Print Assumptions C18_lexers_agree.
 (** after an option prefix the engine is back in [ValueDone] - same level, same positional index, not escaped -
     and the parser's token loop is back in [ValuesDone] - same positional counter, `--` not seen *)
 Theorem C18_state_agreement_prefix : forall pc cur pre F, elevel pc cur -> Chain.prefix_ok pc pre F ->
-  (forall pi, shadow_run pre cur pi false ValueDone = SNext cur pi false ValueDone) /\
+  (forall pi vaf, shadow_run pre cur pi false ValueDone vaf = SNext cur pi false ValueDone (vaf || negb (is_nil pre))) /\
   (forall rest pos vaf st, fs_skip st = 0 ->
      parse_loop pc (pre ++ rest) (Chain.lsV pos vaf) st =
      (do st' <- F st; parse_loop pc rest (Chain.lsV pos (vaf || negb (is_nil pre))) st')).
@@ -394,7 +403,7 @@ Print Assumptions C18_state_agreement_prefix.
     exactly where the parser stands in [PSOpt (a_id a)]: the same argument, nothing collected yet *)
 Theorem C18_state_agreement_open : forall pc cur pre F tok a idn,
   elevel pc cur -> Chain.prefix_ok pc pre F -> open_tok pc tok a idn ->
-  (forall pi, shadow_run (pre ++ [tok]) cur pi false ValueDone = SNext cur pi false (Opt a 1)) /\
+  (forall pi vaf, shadow_run (pre ++ [tok]) cur pi false ValueDone vaf = SNext cur pi false (Opt a 1) true) /\
   (forall rest pos vaf st, fs_skip st = 0 ->
      parse_loop pc (pre ++ tok :: rest) (Chain.lsV pos vaf) st =
      (do st' <- F st; do st1 <- resolve_pending pc st';
@@ -409,7 +418,7 @@ Print Assumptions C18_state_agreement_open.
 Theorem C18_shadow_line : forall c0 bin line w after pcf f b,
   tree_all unb c0 -> is_set s_no_binary_name c0 = false -> N.of_nat (length line) + 2 <= usize_max ->
   build_full f c0 = BOk b -> cline (build_self (ActionsTop.with_bin c0 bin)) line pcf ->
-  exists curf pif, start_walk b (bin :: line ++ w :: after) (N.of_nat (S (length line))) = WAt w curf pif ValueDone false
+  exists curf pif evf, start_walk b (bin :: line ++ w :: after) (N.of_nat (S (length line))) = WAt w curf pif ValueDone false evf
                    /\ lvl_rel pcf curf.
 Proof. exact shadow_line. Qed.
 Print Assumptions C18_shadow_line.
@@ -438,7 +447,7 @@ Print Assumptions C18_line_classes_decidable.
 Theorem C18_require_equals_refuted : exists tbl c0 bin line cd,
   (exists m, parse_top c0 (bin :: line) = OOk m) /\
   (exists b cur a, build_full (build_fuel c0) c0 = BOk b /\
-     start_walk b (bin :: line ++ [[]]) (N.of_nat (S (length line))) = WAt [] cur 1 (Opt a 1) false /\ a_req_eq a = true) /\
+     start_walk b (bin :: line ++ [[]]) (N.of_nat (S (length line))) = WAt [] cur 1 (Opt a 1) false true /\ a_req_eq a = true) /\
   (exists l, complete_model tbl c0 (bin :: line ++ [[]]) (N.of_nat (S (length line))) = COk l /\ In cd l) /\
   (exists e, parse_top c0 (bin :: line ++ [cd_value cd]) = OErr e /\ e_kind e = EUnknownArgument).
 Proof. exact require_equals_refuted. Qed.
@@ -535,12 +544,12 @@ Print Assumptions C18_pos_state_none.
 
 (** after `--`: one step of the shadow parse descends on a subcommand name or counts a positional value - no token
     is read as an option; the escape flag stays ... *)
-Theorem C18_escaped_step : forall arg cur pi st,
-  shadow_step arg cur pi true st =
-  match (if try_sub cur st && utf8_valid arg then find_subcommand cur arg else None) with
-  | Some next => SNext next 1 true ValueDone
+Theorem C18_escaped_step : forall arg cur pi st vaf,
+  shadow_step arg cur pi true st vaf =
+  match (if try_sub cur st && negb (is_set s_args_negate_subs cur && vaf) && utf8_valid arg then find_subcommand cur arg else None) with
+  | Some next => SNext next 1 true ValueDone false
   | None => match parse_positional cur pi true st with
-            | Some (st', pi') => SNext cur pi' true st'
+            | Some (st', pi') => SNext cur pi' true st' true
             | None => SPanic 673
             end
   end.
@@ -562,3 +571,239 @@ Theorem C18_escape_only_positionals_refuted :
   Esc.has_cand (dd ++ Esc.w_opt) (complete_model [] Esc.c0 [[112]; dd; [97]; []] 3) = true.
 Proof. exact escape_offers_options. Qed.
 Print Assumptions C18_escape_only_positionals_refuted.
+
+(** * Round 4: lines with POSITIONAL values; [args_conflicts_with_subcommands] (Complete/EngineWide.v)
+
+    [item18]: C09's option items ([Chain.item]: `--flag`, `--opt=v`, `--opt v`, `-abc`, `-ov`, `-o v`) plus `-o=v` and
+    multi-valued options `--opt v1 .. vk` / `-o v1 .. vk` with [k] = the maximum of the range, the values plain words that
+    are neither subcommand names nor the option's terminator ([value_tok]).  [pitems18 c pos pre F pos']: items and values
+    of single-valued positionals; [pos]/[pos'] the positional counter before and after.
+    [body18 pc pre F pst pos est]: [pre] are the arguments of one level - options and values of single-valued
+    positionals ([pitems18], the counter starts at 1), optionally followed by [k] values of a multi-valued
+    positional [a] ([ChainWide.multi_vals], [k] below the engine's [eng_num_args a]); [F] is the parser's state
+    transformer, [pst]/[pos] the parser's loop state and positional counter behind them, [est] the engine's state:
+    [ValueDone] resp. [Pos pos k].  [pline pc line pcf posf vf]: `body_0 n_1 body_1 ... n_k pre_k`, every [n_i] a
+    subcommand name/alias read where the parser looks for one ([may_select]: between arguments, or behind the values
+    of a multi-valued positional if THE LEVEL REACHED sets [subcommand_precedence_over_arg]); a level with
+    [args_conflicts_with_subcommands] is left only before any of its own arguments (behind one, a subcommand NAME is a
+    positional value for both machines: [p18_pos]); [posf]/[vf]: the parser's positional counter and "an argument was
+    seen" flag at the final level [pcf].  [pitems18 c vaf pos pre F pos']: [vaf] is that flag before [pre]. *)
+
+(** STATE AGREEMENT on an item of the wider class: the engine is back in [ValueDone] (same level, same index) and the
+    parser's loop is the item's transformer [F], then the loop on the rest in [ValuesDone] *)
+Theorem C18_state_agreement_item18 : forall pc cur toks F, elevel pc cur -> item18 pc toks F ->
+  (forall pi vaf, shadow_run toks cur pi false ValueDone vaf = SNext cur pi false ValueDone true) /\
+  (forall rest pos vaf st, fs_skip st = 0 ->
+     parse_loop pc (toks ++ rest) (Chain.lsV pos vaf) st = (do st' <- F st; parse_loop pc rest (Chain.lsV pos true) st')).
+Proof. exact state_agreement_item18. Qed.
+Print Assumptions C18_state_agreement_item18.
+
+(** ... and INSIDE a multi-valued occurrence: after `--opt v1 .. vj`, [j] below the maximum of the range, the engine stands
+    in [Opt a (j+1)] where the parser stands in [PSOpt (a_id a)] with exactly [v1 .. vj] pending *)
+Theorem C18_values_agree : forall pc cur tok f a r vs, elevel pc cur ->
+  Chain.no_sub pc tok -> Parser.to_long tok = Some (f, true, None) -> get_long pc f = Some a -> a_takes_value a = true ->
+  a_req_eq a = false -> find_arg pc (a_id a) = Some a -> a_num a = Some r ->
+  N.of_nat (length vs) < vmax r -> Forall (value_tok pc a) vs ->
+  (forall pi evaf, shadow_run (tok :: vs) cur pi false ValueDone evaf = SNext cur pi false (Opt a (1 + N.of_nat (length vs))) true) /\
+  (forall rest pos vaf st,
+     parse_loop pc (tok :: vs ++ rest) (Chain.lsV pos vaf) st =
+     (do st' <- sepm_fn pc ILong a vs st; parse_loop pc rest (mkL (PSOpt (a_id a)) pos true false) st')).
+Proof. exact values_agree. Qed.
+Print Assumptions C18_values_agree.
+
+(** a value TERMINATOR is unknown to the engine: `p --opt a ; <TAB>` (`--opt` takes 1..3 values, terminator `;`): the engine
+    stands in [Opt _ 3], the parser has closed the occurrence; `p --opt a ; sub <TAB>`: the parser accepts the line and is at
+    `sub`, the engine took `sub` for the third value, stays at `p`, offers `--opt` of `p`, and `p --opt a ; sub --opt` is
+    rejected with UnknownArgument (same on the real crate) *)
+Theorem C18_terminator_refuted :
+  Term.walk_at ([112] :: [Term.ddopt; [97]; Term.semi] ++ [[]]) 4 = Some ([112], 3) /\
+  Term.chain_of (parse_top Term.c0 ([112] :: Term.line)) = Some [Term.w_sub] /\
+  Term.walk_at ([112] :: Term.line ++ [[45; 45]]) 5 = Some ([112], 0) /\
+  Term.has_cand Term.ddopt (IdArg Term.w_opt) (complete_model [] Term.c0 ([112] :: Term.line ++ [[45; 45]]) 5) = true /\
+  Term.kind_of (parse_top Term.c0 ([112] :: Term.line ++ [Term.ddopt])) = Some EUnknownArgument.
+Proof. exact terminator_refuted. Qed.
+Print Assumptions C18_terminator_refuted.
+
+(** the engine's positional lookup IS the parser's key-map lookup *)
+Theorem C18_find_pos_is_get_pos : forall c n, assert_app c = true -> find_pos c n = get_pos c n.
+Proof. exact find_pos_get_pos. Qed.
+Print Assumptions C18_find_pos_is_get_pos.
+
+(** STATE AND POS_INDEX AGREEMENT on one level: behind the arguments of a level the engine stands in [est] at
+    [pos_index = pos] where the parser's token loop stands in [pst] at the positional counter [pos];
+    [ValueDone]/[PSValuesDone], or [Pos pos k]/[PSPos (a_id a)] for the same positional [a] *)
+Theorem C18_state_agreement_positionals : forall pc cur pre F pst pos est, elevel pc cur -> body18 pc pre F pst pos est ->
+  shadow_run pre cur 1 false ValueDone false = SNext cur pos false est (negb (is_nil pre)) /\
+  (forall rest st, fs_skip st = 0 ->
+     parse_loop pc (pre ++ rest) (Chain.lsV 1 false) st =
+     (do st' <- F st; parse_loop pc rest (mkL pst pos (negb (is_nil pre)) false) st')) /\
+  match est with
+  | ValueDone => pst = PSValuesDone
+  | Pos i k => i = pos /\ exists a, pst = PSPos (a_id a) /\ find_pos cur pos = Some a /\ get_pos pc pos = Some a /\
+                 a_is_multiple a = true /\ k < eng_num_args a
+  | Opt _ _ => False
+  end.
+Proof. exact state_agreement_positionals. Qed.
+Print Assumptions C18_state_agreement_positionals.
+
+(** whole lines, engine side: [ValueDone], before `--`, at a level related to the parser's final level, the
+    engine's [pos_index] IS the parser's positional counter [posf] and its [valid_arg_found] the parser's flag [vf] *)
+Theorem C18_shadow_pline : forall c0 bin line w after pcf posf vf f b,
+  tree_all unb c0 -> is_set s_no_binary_name c0 = false -> N.of_nat (length line) + 2 <= usize_max ->
+  build_full f c0 = BOk b -> pline (build_self (ActionsTop.with_bin c0 bin)) line pcf posf vf ->
+  exists curf, start_walk b (bin :: line ++ w :: after) (N.of_nat (S (length line))) = WAt w curf posf ValueDone false vf
+               /\ lvl_rel pcf curf.
+Proof. exact shadow_pline. Qed.
+Print Assumptions C18_shadow_pline.
+
+(** ... and the engine's per-level [valid_arg_found] IS the parser's flag [vf] at the final level *)
+Theorem C18_flag_agreement : forall c0 bin line pcf posf vf f b,
+  tree_all unb c0 -> build_full f c0 = BOk b -> pline (build_self (ActionsTop.with_bin c0 bin)) line pcf posf vf ->
+  exists curf, shadow_run line b 1 false ValueDone false = SNext curf posf false ValueDone vf /\ lvl_rel pcf curf.
+Proof. exact flag_agreement. Qed.
+Print Assumptions C18_flag_agreement.
+
+(** END TO END for lines with positional values: every option / subcommand candidate of the class, put in place of the
+    word, gives a line that [parse_top] does not reject with UnknownArgument / InvalidSubcommand.  A subcommand
+    candidate is in the class only where the parser still looks for subcommands ([cand_classw]: the final level
+    does not set [args_conflicts_with_subcommands], or [vf = false]) *)
+Theorem C18_candidate_accepted_pline : forall tbl c0 bin line w after l cd pcf posf vf e,
+  tree_all unb c0 -> is_set s_no_binary_name c0 = false ->
+  N.of_nat (length line) + 2 <= usize_max ->
+  pline (build_self (ActionsTop.with_bin c0 bin)) line pcf posf vf ->
+  complete_model tbl c0 (bin :: line ++ w :: after) (N.of_nat (S (length line))) = COk l ->
+  In cd l -> cand_classw pcf posf vf w cd ->
+  parse_top c0 (bin :: line ++ [cd_value cd]) = OErr e -> ~ unknown_kind (e_kind e).
+Proof. exact candidate_accepted_pline. Qed.
+Print Assumptions C18_candidate_accepted_pline.
+
+(** the round-3 class [cline] is a special case (counter 1 at the end, no [args_conflicts_with_subcommands]) *)
+Theorem C18_cline_is_pline : forall pc line pcf, cline pc line pcf -> exists vf, pline pc line pcf 1 vf.
+Proof. exact cline_pline. Qed.
+Print Assumptions C18_cline_is_pline.
+
+Theorem C18_wide_classes_decidable :
+  (forall pc, lvlw_b pc = true -> lvlw pc) /\
+  (forall pcf posf vf w cd, cand_classw_b pcf posf vf w cd = true -> cand_classw pcf posf vf w cd).
+Proof. exact wide_classes_decidable. Qed.
+Print Assumptions C18_wide_classes_decidable.
+
+(** [args_conflicts_with_subcommands] (repaired engine: it keeps the parser's per-level flag [valid_arg_found]).
+    On a level [pc] that sets it, behind arguments [pre] of the level, at a word [tok] naming the subcommand [sc0]:
+    (1) [pre = []]: the engine descends and the parser dispatches to the same child; (2) [pre <> []]: NEITHER machine
+    reads [tok] as a subcommand - the engine counts a positional value and stays at the level; the parser, with a
+    positional left at the counter, takes [tok] as its value and stays at [pc], with none left it rejects the line
+    with ArgumentConflict *)
+Theorem C18_args_conflict_levels : forall pc cur pre F pos tok sc0,
+  lvlw pc -> lvl_rel pc cur -> is_set s_args_negate_subs pc = true ->
+  pitems18 pc false 1 pre F pos -> utf8_valid tok = true -> find_subcommand pc tok = Some sc0 -> aliases_to sc0 s_help = false ->
+  (pre = [] ->
+     (exists es pc', shadow_step tok cur 1 false ValueDone false = SNext es 1 false ValueDone false /\
+                     build_subcommand pc (c_name sc0) = Some pc' /\ lvl_rel pc' es) /\
+     forall rest st, exists n', find_subcommand pc n' = Some sc0 /\
+       parse_loop pc (tok :: rest) (Chain.lsV 1 false) st = ROk (LSub n' false false st rest)) /\
+  (pre <> [] -> ChainWide.plain_tok tok ->
+     shadow_run (pre ++ [tok]) cur 1 false ValueDone false =
+       match parse_positional cur pos false ValueDone with
+       | Some (st, pi) => SNext cur pi false st true
+       | None => SPanic 673
+       end /\
+     forall rest st, fs_skip st = 0 ->
+     (forall a, ChainWide.takes_at pc pos a tok ->
+        parse_loop pc (pre ++ tok :: rest) (Chain.lsV 1 false) st =
+        (do st' <- F st; do st'' <- ChainWide.pos_push pc a tok st'; parse_loop pc rest (ChainWide.after_pos a pos) st'')) /\
+     (ChainWide.pos_plain pc -> get_pos pc pos = None -> is_set s_allow_external pc = false ->
+        parse_loop pc (pre ++ tok :: rest) (Chain.lsV 1 false) st =
+        (do st' <- F st; do st1 <- resolve_pending_ignore pc st'; RErr (match_arg_error pc tok true false) st1) /\
+        e_kind (match_arg_error pc tok true false) = EArgumentConflict)).
+Proof. exact args_conflict_levels. Qed.
+Print Assumptions C18_args_conflict_levels.
+
+(** BEFORE / AFTER the repair (finding C18-args-conflict; corpus/C18/accept.args-conflict.cases).  W2,
+    `p(-f; <file>; args_conflicts) -> sub(--opt)`: the parser ACCEPTS `p -f sub` (`sub` is the value of <file>) and rejects
+    `p -f sub --opt` with UnknownArgument; BEFORE the repair the engine ([complete_model_before_fix]) stood at `sub` and
+    offered `--opt` (id arg::opt); AFTER it stands at `p` and does not.  W1 (no positional): BEFORE, `p -f <TAB>` offered
+    the subcommand `sub`, which the parser rejects with ArgumentConflict; AFTER ([complete_arg] is told the flag) it does not *)
+Theorem C18_args_conflict_before_after :
+  Conflict.accepted (parse_top Conflict.c2 [[112]; Conflict.f; Conflict.w_sub]) = true /\
+  Conflict.kind_of (parse_top Conflict.c2 [[112]; Conflict.f; Conflict.w_sub; 45 :: 45 :: Conflict.w_opt]) = Some EUnknownArgument /\
+  Conflict.level_at_before_fix Conflict.c2 [[112]; Conflict.f; Conflict.w_sub; [45; 45]] 3 = Some Conflict.w_sub /\
+  Conflict.has_cand (45 :: 45 :: Conflict.w_opt) (IdArg Conflict.w_opt)
+    (complete_model_before_fix [] Conflict.c2 [[112]; Conflict.f; Conflict.w_sub; [45; 45]] 3) = true /\
+  Conflict.level_at Conflict.c2 [[112]; Conflict.f; Conflict.w_sub; [45; 45]] 3 = Some [112] /\
+  Conflict.has_cand (45 :: 45 :: Conflict.w_opt) (IdArg Conflict.w_opt)
+    (complete_model [] Conflict.c2 [[112]; Conflict.f; Conflict.w_sub; [45; 45]] 3) = false /\
+  Conflict.has_cand Conflict.w_sub (IdCmd Conflict.w_sub) (complete_model_before_fix [] Conflict.c1 [[112]; Conflict.f; []] 2) = true /\
+  Conflict.has_cand Conflict.w_sub (IdCmd Conflict.w_sub) (complete_model [] Conflict.c1 [[112]; Conflict.f; []] 2) = false /\
+  Conflict.kind_of (parse_top Conflict.c1 [[112]; Conflict.f; Conflict.w_sub]) = Some EArgumentConflict /\
+  Conflict.level_at_before_fix Conflict.c1 [[112]; Conflict.f; Conflict.w_sub; []] 3 = Some Conflict.w_sub /\
+  Conflict.level_at Conflict.c1 [[112]; Conflict.f; Conflict.w_sub; []] 3 = Some [112].
+Proof. exact args_conflict_before_after. Qed.
+Print Assumptions C18_args_conflict_before_after.
+
+(** * The hide flag is the DEFINITIONAL one (Complete/EngineHidden.v)
+    [def_flag c cd h]: by the definition of the level [c] the spelling [cd_value cd] of the argument / subcommand whose id
+    [cd] carries is hidden ([h = true]: the argument / subcommand is hidden, or the spelling is an alias that is not a
+    visible alias - a hidden alias of a VISIBLE option is a hidden spelling) or visible ([h = false]) *)
+Theorem C18_hide_flag_definitional : forall tbl w c pi st l x,
+  complete_arg tbl w c pi st = COk l -> In x l -> cd_id x <> None -> def_flag c x (cd_hidden x).
+Proof. exact hide_flag_definitional. Qed.
+Print Assumptions C18_hide_flag_definitional.
+
+(** ... hence the rule of the property read off the definition: beside a candidate shown as visible, every option /
+    subcommand candidate has a spelling that is visible by definition *)
+Theorem C18_hidden_rule_definitional : forall tbl w c pi st l x y,
+  complete_arg tbl w c pi st = COk l -> In x l -> cd_hidden x = false -> In y l -> cd_id y <> None -> def_flag c y false.
+Proof. exact hidden_rule_definitional. Qed.
+Print Assumptions C18_hidden_rule_definitional.
+
+(** * The ORDER of the candidates (Complete/EngineOrder.v)
+    [kcand] = a candidate with its sort data (tag, display order); [sort_final l] = the last statement of [complete_arg]:
+    [tags_of l []] are the tags in order of first appearance, the sort key of a candidate is (position of its tag,
+    display order) with the derived order of [(Option<usize>, Option<usize>)] ([skey_le]); the sort is stable.
+    [complete_arg_ord] / [complete_model_ord] = the engine with that sort (extracted; compared with the real crate AS A
+    LIST in stream `order`). *)
+Theorem C18_sort_final_spec : forall l,
+  Permutation (sort_final l) l /\
+  StronglySorted (kle (sort_key (tags_of l []))) (sort_final l) /\
+  forall k, filter (same_key (sort_key (tags_of l [])) k) (sort_final l) = filter (same_key (sort_key (tags_of l [])) k) l.
+Proof. exact sort_final_spec. Qed.
+Print Assumptions C18_sort_final_spec.
+
+(** the ordered result is a permutation of the unordered model's result, in EVERY state (every theorem about membership in
+    [complete_arg]'s list therefore speaks about the ordered list too).  In state [Opt] beyond the minimum the recursive
+    call's list is sorted before it is appended and de-duplicated again: its ids are pairwise different, the second
+    de-duplication removes nothing *)
+Theorem C18_order_is_permutation : forall ot tbl w c pi st l',
+  complete_arg_ord ot tbl w c pi st = COk l' ->
+  exists l, complete_arg tbl w c pi st = COk l /\ Permutation l' l.
+Proof. exact complete_arg_ord_perm_all. Qed.
+Print Assumptions C18_order_is_permutation.
+
+(** ... and of the engine's [complete_arg] with [valid_arg_found] ([complete_arg_v]; [complete_arg_ord_v] is what
+    [complete_model_ord] calls) *)
+Theorem C18_order_is_permutation_v : forall ot tbl w c pi st vaf l',
+  complete_arg_ord_v ot tbl w c pi st vaf = COk l' ->
+  exists l, complete_arg_v tbl w c pi st vaf = COk l /\ Permutation l' l.
+Proof. exact complete_arg_ord_v_perm. Qed.
+Print Assumptions C18_order_is_permutation_v.
+
+(** [complete_arg_v] (the engine's [complete_arg] with [valid_arg_found]) through [complete_arg]: every theorem stated for
+    [complete_arg tbl w c ..] holds for [complete_arg_v tbl w c .. vaf] with [c] replaced by [sub_cut c vaf] - [c] itself
+    unless an argument of [c] was seen and [c] sets [args_conflicts_with_subcommands], then [c] without its subcommands *)
+Theorem C18_complete_arg_v_cut : forall tbl w c pi st vaf,
+  complete_arg_v tbl w c pi st vaf = complete_arg tbl w (sub_cut c vaf) pi st.
+Proof. exact complete_arg_v_cut. Qed.
+Print Assumptions C18_complete_arg_v_cut.
+
+Theorem C18_complete_arg_v_flag_off : forall tbl w c pi st vaf, (is_set s_args_negate_subs c && vaf) = false ->
+  complete_arg_v tbl w c pi st vaf = complete_arg tbl w c pi st.
+Proof. exact complete_arg_v_flag_off. Qed.
+Print Assumptions C18_complete_arg_v_flag_off.
+
+(** behind an argument of a command whose arguments conflict with subcommands no subcommand candidate is offered *)
+Theorem C18_no_subcommand_candidates_behind_args : forall tbl w c pi st vaf l cd n,
+  (is_set s_args_negate_subs c && vaf) = true ->
+  complete_arg_v tbl w c pi st vaf = COk l -> In cd l -> cd_id cd <> Some (IdCmd n).
+Proof. exact no_subcommand_candidates_behind_args. Qed.
+Print Assumptions C18_no_subcommand_candidates_behind_args.
